@@ -670,8 +670,9 @@ class Lexer(object):
                 | \\[^0-9xu\n\r\u2028\u2029]    # escaped chars
                 | \\x[0-9a-fA-F]{2}        # hex_escape_sequence
                 | \\u[0-9a-fA-F]{4}        # unicode_escape_sequence
-                | \\(?:[1-7][0-7]{0,2}|[0-7]{2,3})  # octal_escape_sequence
-                | \\0                      # <NUL> (15.10.2.11)
+                | \\[0-7]{3}               # octal_escape_sequence, or
+                | \\[0-7]{1,2}(?![0-7])    # <NUL> (15.10.2.11); exactly one
+                                           # way to read a run of digits
             )*?                            # zero or many times
         ")                                 # must have closing double quote
         |
@@ -682,8 +683,9 @@ class Lexer(object):
                 | \\[^0-9xu\n\r\u2028\u2029]    # escaped chars
                 | \\x[0-9a-fA-F]{2}        # hex_escape_sequence
                 | \\u[0-9a-fA-F]{4}        # unicode_escape_sequence
-                | \\(?:[1-7][0-7]{0,2}|[0-7]{2,3}) # octal_escape_sequence
-                | \\0                      # <NUL> (15.10.2.11)
+                | \\[0-7]{3}               # octal_escape_sequence, or
+                | \\[0-7]{1,2}(?![0-7])    # <NUL> (15.10.2.11); exactly one
+                                           # way to read a run of digits
             )*?                            # zero or many times
         ')                                 # must have closing single quote
     )
